@@ -409,67 +409,11 @@ func fieldKeyRule(c *core.Ctx) {
 			continue
 		}
 		r := p.Results[0]
-		// tag := strings.Split(t.StructField.Tag.Get("hseq"), ",")[0]
-		isGet := func(g *ir.Term) bool {
-			return g.Op == "pure" && strings.HasSuffix(g.Aux, "StructTag).Get") && len(g.Args) == 2 && g.Args[1].Aux == `"hseq"` &&
-				g.Args[0].Op == "field" && g.Args[0].Aux == "Tag"
-		}
-		isTag := func(t *ir.Term) bool {
-			var base, idx *ir.Term
-			switch {
-			case t.Op == "extract" && t.Aux == "0" && t.Args[0].Op == "pure" && t.Args[0].Aux == "strings.Cut":
-				// before, _, _ := strings.Cut(tag, ",") : the part before the first comma (the whole tag without one)
-				cut := t.Args[0]
-				return len(cut.Args) == 2 && cut.Args[1].Aux == `","` && isGet(cut.Args[0])
-			case t.Op == "load" && t.Args[0].Op == "iaddr":
-				base, idx = t.Args[0].Args[0], t.Args[0].Args[1]
-			case t.Op == "index":
-				base, idx = t.Args[0], t.Args[1]
-			default:
-				return false
-			}
-			k, isK := idx.IntConst()
-			if !isK || k != 0 || base.Op != "pure" || base.Aux != "strings.Split" || len(base.Args) != 2 {
-				return false
-			}
-			if base.Args[1].Aux != `","` {
-				return false
-			}
-			return isGet(base.Args[0])
-		}
-		var tagT *ir.Term
-		emptyPol := 0
-		for _, s := range p.Events(ir.KBranch) {
-			if s.Atom.Op == "bin" && s.Atom.Aux == "==" {
-				for i := 0; i < 2; i++ {
-					if s.Atom.Args[i].Aux == `""` && isTag(s.Atom.Args[1-i]) {
-						tagT = s.Atom.Args[1-i]
-						if s.Pol {
-							emptyPol = 1
-						} else {
-							emptyPol = -1
-						}
-					}
-				}
-			}
-		}
-		if emptyPol == 0 {
-			// the emptiness test written on the length: len(tag) > 0, len(tag) == 0, ...
-			for _, s := range p.Events(ir.KBranch) {
-				s.Atom.Walk(func(x *ir.Term) {
-					if x.Op == "len" && len(x.Args) == 1 && isTag(x.Args[0]) && tagT == nil {
-						tagT = x.Args[0]
-					}
-				})
-			}
-			if tagT != nil {
-				emptyPol = polarity(p, &ir.Term{Op: "bin", Aux: "==", Args: sorted2(ir.Const("0"), &ir.Term{Op: "len", Args: []*ir.Term{tagT}})})
-			}
-		}
-		switch {
-		case emptyPol < 0 && ir.Same(r, tagT):
+		kind, emptyPol := fieldKeyKind(p, r)
+		switch kind {
+		case "tag":
 			nTag++
-		case emptyPol > 0 && r.Op == "field" && r.Aux == "Name":
+		case "name":
 			nName++
 		default:
 			ok = false
@@ -481,6 +425,84 @@ func fieldKeyRule(c *core.Ctx) {
 	} else if ok {
 		c.Fail("fieldkey", "hseq.Type.FieldKey", fn.Pos(), "expected a tag path and a name path (found %d / %d)", nTag, nName)
 	}
+}
+
+// fieldKeyKind classifies the term r on path p as the key of a listing entry: "tag" when the path established that the
+// first comma-separated part of the `hseq` tag is non-empty and r is that part, "name" when the path established that it
+// is empty and r is the field name, "" otherwise. The second result is the polarity of the emptiness test on the path.
+func fieldKeyKind(p *ir.Path, r *ir.Term) (string, int) {
+	// tag := strings.Split(t.StructField.Tag.Get("hseq"), ",")[0]
+	isGet := func(g *ir.Term) bool {
+		return g.Op == "pure" && strings.HasSuffix(g.Aux, "StructTag).Get") && len(g.Args) == 2 && g.Args[1].Aux == `"hseq"` &&
+			fieldRead(g.Args[0], "Tag")
+	}
+	isTag := func(t *ir.Term) bool {
+		var base, idx *ir.Term
+		switch {
+		case t.Op == "extract" && t.Aux == "0" && t.Args[0].Op == "pure" && t.Args[0].Aux == "strings.Cut":
+			// before, _, _ := strings.Cut(tag, ",") : the part before the first comma (the whole tag without one)
+			cut := t.Args[0]
+			return len(cut.Args) == 2 && cut.Args[1].Aux == `","` && isGet(cut.Args[0])
+		case t.Op == "load" && t.Args[0].Op == "iaddr":
+			base, idx = t.Args[0].Args[0], t.Args[0].Args[1]
+		case t.Op == "index":
+			base, idx = t.Args[0], t.Args[1]
+		default:
+			return false
+		}
+		k, isK := idx.IntConst()
+		if !isK || k != 0 || base.Op != "pure" || base.Aux != "strings.Split" || len(base.Args) != 2 {
+			return false
+		}
+		if base.Args[1].Aux != `","` {
+			return false
+		}
+		return isGet(base.Args[0])
+	}
+	var tagT *ir.Term
+	emptyPol := 0
+	for _, s := range p.Events(ir.KBranch) {
+		if s.Atom.Op == "bin" && s.Atom.Aux == "==" {
+			for i := 0; i < 2; i++ {
+				if s.Atom.Args[i].Aux == `""` && isTag(s.Atom.Args[1-i]) {
+					tagT = s.Atom.Args[1-i]
+					if s.Pol {
+						emptyPol = 1
+					} else {
+						emptyPol = -1
+					}
+				}
+			}
+		}
+	}
+	if emptyPol == 0 {
+		// the emptiness test written on the length: len(tag) > 0, len(tag) == 0, ...
+		for _, s := range p.Events(ir.KBranch) {
+			s.Atom.Walk(func(x *ir.Term) {
+				if x.Op == "len" && len(x.Args) == 1 && isTag(x.Args[0]) && tagT == nil {
+					tagT = x.Args[0]
+				}
+			})
+		}
+		if tagT != nil {
+			emptyPol = polarity(p, &ir.Term{Op: "bin", Aux: "==", Args: sorted2(ir.Const("0"), &ir.Term{Op: "len", Args: []*ir.Term{tagT}})})
+		}
+	}
+	switch {
+	case emptyPol < 0 && ir.Same(r, tagT):
+		return "tag", emptyPol
+	case emptyPol > 0 && fieldRead(r, "Name"):
+		return "name", emptyPol
+	}
+	return "", emptyPol
+}
+
+// fieldRead: t reads the field of that name - of a struct value (field) or through its address (load of faddr).
+func fieldRead(t *ir.Term, name string) bool {
+	if t.Op == "field" && t.Aux == name {
+		return true
+	}
+	return t.Op == "load" && len(t.Args) >= 1 && t.Args[0].Op == "faddr" && t.Args[0].Aux == name
 }
 
 func firstMatchRules(c *core.Ctx) {
@@ -538,6 +560,10 @@ func firstMatchRules(c *core.Ctx) {
 						if !mentionsOnly(other, elem) {
 							ok = false
 							c.Fail("first-match", cname, s.Pos(), "the name is compared with %s, which is not the key of the element under inspection", short(other))
+						} else if kind, _ := fieldKeyKind(p, other); kind == "" {
+							// the key is what FieldKey defines: the tag's first part when non-empty, else the field name
+							ok = false
+							c.Fail("first-match", cname, s.Pos(), "the name is compared with %s, which is not the entry's key (the first part of its `hseq` tag when non-empty, else its field name)", short(other))
 						}
 						match = polInt(s.Pol)
 					}
